@@ -145,7 +145,7 @@ fn summary(agg: &TypeAggregator) -> BTreeMap<String, String> {
 fn gen_reqs(rng: &mut Rng) -> Vec<Req> {
     let n = rng.range(2, 5);
     let names = [
-        "ns:lib/i0@1.0.0", "ns:lib/i0@1.1.0", "ns:lib/i0@1.2.5", "ns:lib/i0@2.0.0", "ns:lib/i0@0.3.1", "ns:lib/i0@0.3.2",
+        "ns:lib/i0@1.0.0", "ns:lib/i0@1.1.0", "ns:lib/i0@1.2.5", "ns:lib/i0@2.0.0", "ns:lib/i0@0.3.1", "ns:lib/i0@0.3.2", "ns:lib/i0@1.10.0", "ns:lib/i0@0.3.10",
         "ns:lib/i0@0.0.1", "ns:lib/i0@0.0.2", "ns:lib/i0@1.0.0-rc.1", "ns:lib/i0", "ns:lib/i1@1.0.0", "plain-name", "other-name",
     ];
     let pool = ["f0", "f1", "f2", "f3", "f4"];
